@@ -39,7 +39,9 @@ class Report:
         self.violations.append({"key": key, "rule": rid, "fn": fn, "msg": msg, "where": where})
 
     def inconc(self, rid, reason):
-        self.inconclusive.append({"rule": rid, "reason": reason})
+        d = {"rule": rid, "reason": reason}
+        if d not in self.inconclusive:
+            self.inconclusive.append(d)
 
     def note(self, s):
         self.info.append(s)
